@@ -436,6 +436,11 @@ def replay_behaviour(digital_rf, root, beh, i, rng, tla_to_py, deep, name):
                     rfiles[j] = sorted(r[0] for r in f["rows"])
                 else:
                     rfiles.append(["stray", f["t"]])
+            if a == "WriteDup" and sorted(ev["stored"]) != sorted(last["S"]["$set"]):
+                # the specification leaves open which other samples of a refused call are stored; the implementation chose
+                # differently from this behaviour, so the rest of the behaviour does not start from the real state: stop here
+                # (TLC still decides whether the choice made is an allowed one)
+                break
             if mkeys != rkeys or mfiles != rfiles:
                 mismatches.append(dict(step=step, action=a, model_store=mkeys, real_store=rkeys, model_files=mfiles, real_files=rfiles))
         elif a == "RFWrite":
